@@ -18,13 +18,15 @@ def gen_full(rng, size="small", force=None):
     n = rng.randint(1, 8 if size == "small" else 16)
     if force and force.get("dag"):
         n = rng.randint(5, 12)
+    if force and force.get("mixing_heavy"):
+        n, nv = 2 * rng.randint(4, 6), 1
     nv = rng.randint(1, 3 if size == "small" else 5)
     use_matrix = p(0.8)
     td = use_matrix and p(0.25)
     N = n + 2 * nv
     F = {k: p(q) for k, q in dict(capacity=.6, windows=.5, precedence=.4, groups=.3, alternates=.25, mixing=.3, initial=.3,
                                   dur_groups=.3, multipliers=.4, targets=.3, minstops=.25, limits=.5, attrs=.3,
-                                  defaults=.15, custom=.3, sparse=.5, dag=.35).items()}
+                                  defaults=.15, custom=.3, sparse=.5, dag=.35, mixing_heavy=0).items()}
     if force:
         F.update(force)
     stops = []
@@ -44,7 +46,7 @@ def gen_full(rng, size="small", force=None):
             s["unplanned_penalty"] = rng.choice([0, 100, 50000])
         if F["attrs"] and p(0.4):
             s["compatibility_attributes"] = rng.sample(["x", "y", "z"], rng.randint(1, 2))
-        if F["mixing"] and p(0.6):
+        if F["mixing"] and (p(0.6) or F["mixing_heavy"]):
             s["mixing_items"] = {"m": {"name": rng.choice(["A", "B"]), "quantity": rng.choice([1, 1, 2])}}
         if F["targets"] and p(0.5):
             s["target_arrival_time"] = rfc(T0 + 60 * rng.randint(0, 120))
